@@ -275,6 +275,8 @@ def c21(ck, F, tier):
     ck.rule("CONST", "date<->serial conversions are inverse translations; all sites use the same base", floor=10, exhaustive=True)
     ck.trust("chrono's NaiveDate arithmetic and leap-year rules; Python datetime ordinals as the reference for the identity")
     guarded(ck, re_.date_const, F)
+    ck.rule("DATE-TOTAL", "date_to_serial_number rejects nothing inside the supported calendar range", floor=3)
+    guarded(ck, re_.date_total, F)
 
 
 def c34(ck, F, tier):
